@@ -20,7 +20,10 @@ use core::sync::atomic::Ordering::*;
 
 use super::Debt;
 
+#[cfg(not(arc_swap_verif))]
 const DEBT_SLOT_CNT: usize = 8;
+#[cfg(arc_swap_verif)]
+const DEBT_SLOT_CNT: usize = arc_swap_verif_rt::cfg::DEBT_SLOT_CNT;
 
 /// Thread-local information for the [`Slots`]
 #[derive(Default)]
